@@ -45,7 +45,7 @@ func opsPerUniverse(tier string) (int, int) {
 	if tier == "thorough" {
 		return 250, 480
 	}
-	return 12, 160
+	return 24, 80
 }
 
 func (p c01) NumCases(c *run.Ctx) int {
@@ -102,10 +102,22 @@ func (p c01) Gen(c *run.Ctx, idx int) (json.RawMessage, error) {
 	prof.Pool = cu.spec.Data.Pool
 	prof.IDStyle = cu.spec.Data.IDStyle
 	prof.HostileStrings = cu.spec.Data.Hostile
+	if idx%5 == 4 {
+		// mirrored root field: the same entities under two response paths, follow-up requests
+		// (nearly) identical -> the executor's request de-duplication and per-path scrubbing
+		prof.PMirror, prof.PVar, prof.PFragment, prof.PInline, prof.PDirective = 1, 0, 0, 0, 0
+		prof.PExplicitID, prof.Depth = 0.4, 5
+	}
 	if r.Intn(6) == 0 && cu.mono.Mutation != nil {
 		prof.Kind = ast.Mutation
 	}
-	op := genValidOp(r, cu.mono, prof)
+	var op *gen.Op
+	if idx%10 == 9 {
+		op = genDedupProbe(r, cu.u)
+	}
+	if op == nil {
+		op = genValidOp(r, cu.mono, prof)
+	}
 	if op == nil {
 		return nil, nil
 	}
